@@ -1025,8 +1025,22 @@ fn run_history(c: &HCase, o: &mut Outcome) {
                 o.inner_evals += upto as u64;
             }
             ROp::Reweight(s, p) => {
+                // counts are asked for before AND after a variable is registered again with another weight: whatever a
+                // manager remembers between wmc calls must follow the weights in force (re-registration goes through
+                // ensure_variable / ensure_variable_weights, not through the weight setters)
+                let upto = b.handles.len();
+                let before = format!("before step {si} (re-register variable {} with another weight)", plan.vars[*s].id);
+                if !b.check_wmc(&plan, upto, false, "hist", &before, o) || !u.check_wmc(&plan, upto, false, "hist", &before, o) {
+                    return;
+                }
                 b.set_var(&plan, *s, *p);
                 u.set_var(&plan, *s, *p);
+                let after = format!("after step {si} (variable {} re-registered with another weight)", plan.vars[*s].id);
+                if !b.check_wmc(&plan, upto, false, "hist", &after, o) || !u.check_wmc(&plan, upto, false, "hist", &after, o) {
+                    return;
+                }
+                o.class("wmc-before-and-after-reweight");
+                o.inner_evals += 4 * upto as u64;
             }
             op => {
                 let out = step.out.unwrap();
